@@ -106,6 +106,14 @@ class TaskScheduler(object):
                     # a synchronous call made by a task that is still executing (and that may
                     # handle this error): it stays the active task until its step ends.
                     active_task = self.active_task
+                    # The tasks of this computation are given up. None of them is executing
+                    # right now, so contexts they still hold active (a task's contexts stay
+                    # active while what it awaits runs) must be paused, innermost first;
+                    # otherwise e.g. a scoped value stays overridden after the error.
+                    for task in reversed(self._tasks[init_num_tasks:]):
+                        if isinstance(task, AsyncTask):
+                            abandoned = task
+                            abandoned._pause_contexts()
                     self.reset()
                     self.active_task = active_task
                     debug.dump(self)
